@@ -34,6 +34,18 @@ func (s secSpec) toml() (scalar string, table string) {
 		return fmt.Sprintf("%s = 5\n", s.name), ""
 	case "array":
 		return fmt.Sprintf("%s = [1, 2]\n", s.name), ""
+	case "array0":
+		return fmt.Sprintf("%s = []\n", s.name), ""
+	case "bool":
+		return fmt.Sprintf("%s = true\n", s.name), ""
+	case "float":
+		return fmt.Sprintf("%s = 1.5\n", s.name), ""
+	case "datetime":
+		return fmt.Sprintf("%s = 2024-01-01T00:00:00Z\n", s.name), ""
+	case "string":
+		return fmt.Sprintf("%s = \"text\"\n", s.name), ""
+	case "nested-array":
+		return fmt.Sprintf("%s = [[], [1]]\n", s.name), ""
 	}
 	return "", ""
 }
@@ -233,7 +245,8 @@ func init() {
 		}
 		// each real configurable lint: ill-typed / scalar / array sections -> exactly that lint fatal with a configuration error
 		for _, n := range configurable {
-			for _, bad := range []string{fmt.Sprintf("[%s]\nRounds = \"x\"\nSkip = 3\nCrossCert = \"no\"\nSubscriberCRL = 7\n", n), fmt.Sprintf("%s = 5\n", n), fmt.Sprintf("%s = [1, 2]\n", n), fmt.Sprintf("%s = \"str\"\n", n)} {
+			for _, bad := range []string{fmt.Sprintf("[%s]\nRounds = \"x\"\nSkip = 3\nCrossCert = \"no\"\nSubscriberCRL = 7\n", n), fmt.Sprintf("%s = 5\n", n), fmt.Sprintf("%s = [1, 2]\n", n), fmt.Sprintf("%s = \"str\"\n", n),
+				fmt.Sprintf("%s = []\n", n), fmt.Sprintf("%s = [[]]\n", n), fmt.Sprintf("%s = true\n", n), fmt.Sprintf("%s = 1.5\n", n), fmt.Sprintf("%s = 2024-01-01T00:00:00Z\n", n), fmt.Sprintf("%s = [\"a\"]\n", n)} {
 				cfg, e := lint.NewConfigFromString(bad)
 				if e != nil {
 					continue
@@ -382,7 +395,7 @@ func init() {
 		if tier() == "thorough" {
 			nCases = 4000
 		}
-		secKinds := []string{"tbl-ok", "tbl-ok", "tbl-bad", "scalar", "array", "tbl-empty", "tbl-unknownkey", "absent", "absent"}
+		secKinds := []string{"tbl-ok", "tbl-ok", "tbl-bad", "scalar", "array", "tbl-empty", "tbl-unknownkey", "array0", "bool", "float", "datetime", "string", "nested-array", "absent", "absent"}
 		seen := map[string]bool{}
 		for n := 0; n < nCases; n++ {
 			kind := pick(rng, []string{"cert", "cert", "crl", "ocsp"})
@@ -393,7 +406,7 @@ func init() {
 				secs = append(secs, secSpec{name, k, 5 + rng.Intn(3)})
 			}
 			for j := rng.Intn(3); j > 0; j-- { // unrelated sections of any shape
-				secs = append(secs, secSpec{pick(rng, []string{"e_other", "w_unrelated", "Global", "CommunityConfig", "e_mockcfg_9"}), pick(rng, secKinds[:7]), 5 + rng.Intn(3)})
+				secs = append(secs, secSpec{pick(rng, []string{"e_other", "w_unrelated", "Global", "CommunityConfig", "e_mockcfg_9"}), pick(rng, secKinds[:13]), 5 + rng.Intn(3)})
 			}
 			// drop duplicate keys (TOML forbids them)
 			uniq := map[string]bool{}
@@ -488,7 +501,7 @@ func init() {
 			}
 			if o.Kind == "panic" || (o.Kind == "res" && strings.Contains(o.Details, "panicked")) {
 				out.Violate("C11|config-panic:"+own, fmt.Sprintf("a %s section for a %s lint makes it panic: %+v", own, kind, o), text, "fatal with a configuration error", o)
-			} else if (own == "tbl-bad" || own == "scalar" || own == "array") && !(o.Kind == "res" && o.Status == 7 && strings.HasPrefix(o.Details, "A fatal error occurred while attempting to configure "+name)) {
+			} else if (own == "tbl-bad" || own == "scalar" || own == "array" || own == "array0" || own == "bool" || own == "float" || own == "datetime" || own == "string" || own == "nested-array") && !(o.Kind == "res" && o.Status == 7 && strings.HasPrefix(o.Details, "A fatal error occurred while attempting to configure "+name)) {
 				out.Violate("C11|bad-section-not-config-error-mock:"+own, fmt.Sprintf("a %s section yields %+v", own, o), text, nil, o)
 			}
 		}
